@@ -30,8 +30,8 @@ def derived_from(F, t, src) -> bool:
     if a is not None:
         return derived_from(F, a, src)
     if isinstance(t, tuple) and t[:1] == ('call',) and isinstance(t[2], tuple) and t[2][:2] == ('ref', 'builtin') and \
-            t[2][2] in ('str', 'int', 'float', 'bool') and len(t[3]) == 1:
-        return derived_from(F, t[3][0], src)
+            t[2][2] in ('str',) and len(t[3]) == 1:
+        return derived_from(F, t[3][0], src)        # the string-on-the-left coercion of `+` (its condition is R4's business)
     return False
 
 
@@ -107,13 +107,16 @@ def check(chk: Check) -> None:
                         isneg = False
                         if isinstance(core, tuple) and core[:1] == ('not',):
                             core, isneg = core[1], True
-                        ok = isinstance(core, tuple) and core[:2] == ('cmp', pyop) and derived_from(F, core[2], a) and derived_from(F, core[3], b) and isneg == neg
+                        # comparisons and membership tests look at the operand values as they are: no conversion
+                        def exact(x, y):
+                            return freeze(x) == y
+                        ok = isinstance(core, tuple) and core[:2] == ('cmp', pyop) and exact(core[2], a) and exact(core[3], b) and isneg == neg
                         # symmetric spellings:  b > a  for  a < b
                         flip = {'<': '>', '>': '<', '<=': '>=', '>=': '<='}
                         if not ok and pyop in flip:
-                            ok = isinstance(core, tuple) and core[:2] == ('cmp', flip[pyop]) and derived_from(F, core[2], b) and derived_from(F, core[3], a) and isneg == neg
+                            ok = isinstance(core, tuple) and core[:2] == ('cmp', flip[pyop]) and exact(core[2], b) and exact(core[3], a) and isneg == neg
                         if not ok and op in ('==', '!=') and isinstance(core, tuple) and core[:2] == ('cmp', '=='):
-                            ok = derived_from(F, core[2], b) and derived_from(F, core[3], a) and isneg == neg
+                            ok = exact(core[2], b) and exact(core[3], a) and isneg == neg
                         if not ok:
                             problems.append('%r returns %s, not the comparison <left> %s <right>' % (op, show(ret), op))
                     else:
@@ -184,6 +187,52 @@ def check(chk: Check) -> None:
     charge_rules(chk, R3, R3)
     _r4_r5(chk)
     _r6(chk)
+    _r7(chk)
+
+
+def _r7(chk: Check) -> None:
+    """Values pass through the evaluator unchanged: what a callee returned and what a name is bound to are the results of
+    the call node and of the name node - not a converted, copied or normalised version of them."""
+    F = chk.facts
+    R7 = chk.rule('C07.R7', 'value transparency: a call node returns exactly what the callee returned, a name node exactly the '
+                            'value found in the scoped names (no conversion, copy or normalisation on the way out)', floor=2)
+    chk.decided += ['results of calls and name lookups are handed on unchanged (R7)']
+    n = 0
+    for cls in om.op_classes(F):
+        if cls == om.ROOT or not om.own_eval(F, cls):
+            continue
+        q = cls + '.eval'
+        selft, stt = ('param', om.self_param(F, q)), ('param', om.state_param(F, q))
+        names = ('attr', stt, 'names')
+        problems = []
+        kind = None
+        n_paths = 0
+        for p in om.eval_paths(F, cls):
+            if not p.normal:
+                continue
+            dyn = [e for e in p.events if e.kind == 'call' and isinstance(freeze(e.func), tuple) and freeze(e.func)[:1] == ('sub',)
+                   and freeze(e.func)[1] == names]
+            loads = [e for e in p.events if e.kind == 'load_sub' and freeze(e.obj) == names]
+            stores = [e for e in p.events if e.kind in ('store_sub', 'aug_sub') and freeze(e.obj) == names]
+            ret = p.outcome[1]
+            if dyn:
+                kind = 'call'
+                n_paths += 1
+                if A.strip_ids(ret) != A.strip_ids(freeze(dyn[-1].result)):
+                    problems.append('returns %s, not the result of `%s` itself' % (show(ret), dyn[-1].text()))
+            elif loads and not stores and not child_events(F, p, selft, stt):
+                kind = kind or 'name'
+                n_paths += 1
+                want = ('sub', names, freeze(loads[-1].index))
+                if ret != want:
+                    problems.append('returns %s, not the value `%s` found' % (show(ret), loads[-1].text()))
+        if kind is None:
+            continue
+        n += 1
+        chk.require(not problems, R7, '%s (%s node)' % (q, kind), F.func(q).where, '; '.join(sorted(set(problems))[:3]) or
+                    '%d returning path(s) hand the %s on unchanged' % (n_paths, 'callee\'s result' if kind == 'call' else 'looked-up value'))
+    if n == 0:
+        raise AnalysisError('anchor vanished: no node class calls or looks up through the scoped names')
 
 
 def _r6(chk: Check) -> None:
